@@ -8,6 +8,7 @@ import (
 	"flag"
 	"fmt"
 	"os"
+	"os/exec"
 	"path/filepath"
 	"runtime"
 	"sort"
@@ -46,6 +47,10 @@ type Run struct {
 	capsHit   []string
 	Exhaust   bool
 	harnessEr []string
+	added     map[string]bool
+	aliases   map[string]string
+	shardK    int
+	shardN    int
 }
 
 // Violation is one replayable counterexample.
@@ -92,7 +97,7 @@ func Parse(level string) *Run {
 // New creates a run context from the environment.
 func New(id, level string) *Run {
 	r := &Run{ID: id, Level: level, Tier: "quick", Start: time.Now(), Exhaust: true,
-		cov: map[string]any{}, knownHit: map[string]bool{}, outcomes: map[string]struct{}{}}
+		cov: map[string]any{}, knownHit: map[string]bool{}, outcomes: map[string]struct{}{}, added: map[string]bool{}, aliases: map[string]string{}}
 	if t := os.Getenv("VERIF_TIER"); t == "quick" || t == "thorough" {
 		r.Tier = t
 	}
@@ -152,8 +157,12 @@ func (r *Run) Add(k string, n int64) {
 	r.mu.Lock()
 	cur, _ := r.cov[k].(int64)
 	r.cov[k] = cur + n
+	r.added[k] = true
 	r.mu.Unlock()
 }
+
+// Alias makes coverage key dst a copy of src at Finish (after shard merging).
+func (r *Run) Alias(dst, src string) { r.mu.Lock(); r.aliases[dst] = src; r.mu.Unlock() }
 
 func (r *Run) Get(k string) int64 {
 	r.mu.Lock()
@@ -238,6 +247,13 @@ func (r *Run) Finish() {
 	wall := time.Since(r.Start).Seconds()
 	r.mu.Lock()
 	defer r.mu.Unlock()
+	if out := os.Getenv("VERIF_SHARD_OUT"); out != "" && r.shardN > 0 {
+		r.writeShard(out)
+		os.Exit(0)
+	}
+	for dst, src := range r.aliases {
+		r.cov[dst] = r.cov[src]
+	}
 	cov := r.cov
 	cov["exhaustive"] = r.Exhaust
 	if len(r.capsHit) > 0 {
@@ -325,10 +341,148 @@ func LoadReplay(path string) (*Violation, error) {
 	return &v, nil
 }
 
+type shardState struct {
+	Adds      map[string]int64 `json:"adds"`
+	Sets      map[string]any   `json:"sets"`
+	Aliases   map[string]string `json:"aliases"`
+	Assume    []string         `json:"assume"`
+	Samples   []any            `json:"samples"`
+	Viol      []Violation      `json:"viol"`
+	KnownHit  []string         `json:"known_hit"`
+	Outcomes  []string         `json:"outcomes"`
+	Caps      []string         `json:"caps"`
+	HarnessEr []string         `json:"harness_errors"`
+}
+
+func (r *Run) writeShard(path string) {
+	st := shardState{Adds: map[string]int64{}, Sets: map[string]any{}, Aliases: r.aliases, Assume: r.assume, Samples: r.samples, Viol: r.viol, Caps: r.capsHit, HarnessEr: r.harnessEr}
+	for k, v := range r.cov {
+		if r.added[k] {
+			st.Adds[k], _ = v.(int64)
+		} else {
+			st.Sets[k] = v
+		}
+	}
+	for k := range r.knownHit {
+		st.KnownHit = append(st.KnownHit, k)
+	}
+	for k := range r.outcomes {
+		st.Outcomes = append(st.Outcomes, k)
+	}
+	b, _ := json.Marshal(st)
+	_ = os.WriteFile(path, b, 0o644)
+}
+
+// Fork turns the run into a multi-process one: the parent re-executes this
+// binary n times with the same arguments (child k handles the indices i with
+// i mod n == k of every ParallelRange, on one OS thread-group of its own),
+// merges the children's results and finishes; in a child Fork returns.
+// Separate processes avoid the page-fault and GC contention of thousands of
+// short-lived databases in one address space.
+func (r *Run) Fork(n int) {
+	if r.Replay != "" || n <= 1 {
+		return
+	}
+	if s := os.Getenv("VERIF_SHARD"); s != "" {
+		fmt.Sscanf(s, "%d/%d", &r.shardK, &r.shardN)
+		return
+	}
+	dir, err := os.MkdirTemp("", "verif-shards-")
+	if err != nil {
+		r.HarnessError("fork: %v", err)
+		r.Finish()
+	}
+	defer os.RemoveAll(dir)
+	var wg sync.WaitGroup
+	outs := make([]string, n)
+	errs := make([]error, n)
+	logs := make([][]byte, n)
+	for k := 0; k < n; k++ {
+		outs[k] = filepath.Join(dir, fmt.Sprintf("shard%d.json", k))
+		wg.Add(1)
+		go func(k int) {
+			defer wg.Done()
+			cmd := exec.Command(os.Args[0], os.Args[1:]...)
+			cmd.Env = append(os.Environ(), fmt.Sprintf("VERIF_SHARD=%d/%d", k, n), "VERIF_SHARD_OUT="+outs[k], "GOMAXPROCS=2")
+			logs[k], errs[k] = cmd.CombinedOutput()
+		}(k)
+	}
+	wg.Wait()
+	for k := 0; k < n; k++ {
+		b, err := os.ReadFile(outs[k])
+		if err != nil {
+			tail := string(logs[k])
+			if len(tail) > 1500 {
+				tail = tail[len(tail)-1500:]
+			}
+			r.HarnessError("shard %d/%d produced no result (%v): %s", k, n, errs[k], tail)
+			continue
+		}
+		var st shardState
+		if err := json.Unmarshal(b, &st); err != nil {
+			r.HarnessError("shard %d: %v", k, err)
+			continue
+		}
+		for key, v := range st.Adds {
+			r.Add(key, v)
+		}
+		for key, v := range st.Sets {
+			if f, ok := v.(float64); ok && f == float64(int64(f)) {
+				v = int64(f)
+			}
+			r.Set(key, v)
+		}
+		for d, s := range st.Aliases {
+			r.Alias(d, s)
+		}
+		for _, a := range st.Assume {
+			dup := false
+			for _, b := range r.assume {
+				dup = dup || a == b
+			}
+			if !dup {
+				r.Assume(a)
+			}
+		}
+		for _, sm := range st.Samples {
+			r.Sample(sm, 6)
+		}
+		for _, v := range st.Viol {
+			r.Violate(v)
+		}
+		for _, kh := range st.KnownHit {
+			r.mu.Lock()
+			r.knownHit[kh] = true
+			r.mu.Unlock()
+		}
+		for _, o := range st.Outcomes {
+			r.Outcome(o)
+		}
+		for _, c := range st.Caps {
+			r.Cap(c)
+		}
+		for _, h := range st.HarnessEr {
+			r.HarnessError("%s", h)
+		}
+	}
+	r.Finish()
+}
+
 // ParallelRange runs f(i) for i in [0,n) on Workers() goroutines; f must be
 // safe for concurrent use on distinct i. Order of visiting is permuted by seed
 // only in its starting offset (results must be order independent).
 func ParallelRange(n int, seed int64, f func(i int)) {
+	if s := os.Getenv("VERIF_SHARD"); s != "" {
+		var k, m int
+		if _, err := fmt.Sscanf(s, "%d/%d", &k, &m); err == nil && m > 0 {
+			for i := 0; i < n; i++ {
+				if i%m == k {
+					f(i)
+				}
+			}
+			return
+		}
+	}
 	w := Workers()
 	if w > n {
 		w = n
